@@ -254,7 +254,7 @@ class SpecArray(object):
         chunks = {attrs.FREQNAME: -1}
 
         # Slice directions
-        if attrs.DIRNAME in other.dims and (dmin or dmax):
+        if attrs.DIRNAME in other.dims and (dmin is not None or dmax is not None):
             other = other.sortby([attrs.DIRNAME]).sel(
                 {attrs.DIRNAME: slice(dmin, dmax)}
             )
@@ -790,7 +790,7 @@ class SpecArray(object):
             - If names is provided, its length must correspond to the length of stats.
 
         """
-        if any((fmin, fmax, dmin, dmax)):
+        if any(limit is not None for limit in (fmin, fmax, dmin, dmax)):
             spectra = self.split(fmin=fmin, fmax=fmax, dmin=dmin, dmax=dmax)
         else:
             spectra = self._obj
